@@ -126,10 +126,26 @@ func (e *Exec) instr(fr *Frame, ins ssa.Instruction, st *State, g string) {
 		res := e.doCall(fr, x, x.Common(), st, g, false)
 		fr.vals[x] = res
 	case *ssa.Defer:
-		fr.defers = append(fr.defers, deferred{g, x})
+		if inLoop(x.Block()) {
+			e.deferInLoop(fr, x, st, g)
+		} else {
+			fr.defers = append(fr.defers, deferred{guard: g, call: x})
+		}
 	case *ssa.RunDefers:
+		// defers registered inside loops (commutative-defer rule) are statically known; blocks are visited in
+		// reverse post-order, so the loop body may be visited after this block: do not rely on visit order
+		for _, b := range fr.fn.Blocks {
+			for _, bi := range b.Instrs {
+				if df, ok := bi.(*ssa.Defer); ok && inLoop(b) && len(df.Common().Args) == 1 {
+					e.runDeferSet(fr, deferred{guard: "true", call: df, set: deferSetName(df), ksort: e.sortOf(df.Common().Args[0].Type())}, st, g)
+				}
+			}
+		}
 		for i := len(fr.defers) - 1; i >= 0; i-- {
 			d := fr.defers[i]
+			if d.set != "" {
+				continue
+			}
 			e.doCall(fr, d.call, d.call.Common(), st, And(g, d.guard), true)
 		}
 	case *ssa.Go:
@@ -790,4 +806,105 @@ func trimPkg(s string) string {
 		return s[i+1:]
 	}
 	return s
+}
+
+func inLoop(b *ssa.BasicBlock) bool {
+	for _, h := range b.Parent().Blocks {
+		if isLoopHeader(h) && naturalLoop(h)[b] {
+			return true
+		}
+	}
+	return false
+}
+
+func (e *Exec) deferContract(x *ssa.Defer) *Contract {
+	c := x.Common()
+	if c.IsInvoke() {
+		return e.P.Spec.Contracts[c.Method.FullName()]
+	}
+	if fn, ok := c.Value.(*ssa.Function); ok {
+		return e.P.Spec.Contracts[FuncKey(fn)]
+	}
+	return nil
+}
+
+func deferSetName(x *ssa.Defer) string {
+	return fmt.Sprintf("$defer$%s$b%d", x.Parent().Name(), x.Block().Index)
+}
+
+// deferInLoop: commutative-defer rule — the (single) key argument is collected in a ghost set.
+func (e *Exec) deferInLoop(fr *Frame, x *ssa.Defer, st *State, g string) {
+	ctr := e.deferContract(x)
+	if ctr == nil || !ctr.Flags["deferset"] || len(x.Common().Args) != 1 {
+		e.unsupported("defer inside a loop needs a callee contract with 'flag deferset' and one key argument (%s)", x)
+	}
+	e.P.Trusted["commutative-defer rule: deferred "+ctr.Key+" calls inside a loop are applied as one set update at function exit"] = true
+	key := e.val(fr, x.Common().Args[0])
+	ks := e.sortOf(x.Common().Args[0].Type())
+	name := deferSetName(x)
+	srt := ArrSort(ks, SBool)
+	cur := e.get(st, name, srt)
+	e.set(st, name, srt, Ite(g, Sto(cur, key.T, "true"), cur))
+	e.recordWrite(name, "")
+	for _, d := range fr.defers {
+		if d.set == name {
+			return
+		}
+	}
+	fr.defers = append(fr.defers, deferred{guard: "true", call: x, set: name, ksort: ks})
+}
+
+func (e *Exec) runDeferSet(fr *Frame, d deferred, st *State, g string) {
+	ctr := e.deferContract(d.call)
+	srt := ArrSort(d.ksort, SBool)
+	setTerm := e.get(st, d.set, srt)
+	names := ctr.Params
+	c := d.call.Common()
+	var recv Val
+	if c.IsInvoke() {
+		if v, ok := fr.vals[c.Value]; ok {
+			recv = v
+		} else {
+			// the receiver is loaded inside the loop body, which may be visited later: it does not matter for the ghost effect
+			recv = e.freshTyped(fr.prefix+"deferrecv", c.Value.Type(), st)
+		}
+		if len(names) == 0 {
+			names = append([]string{"self"}, sigParamNames(c.Signature())...)
+		}
+	}
+	keyName := names[len(names)-1]
+	pre := st.clone()
+	// requires for every member of the set
+	qk := Sym(e.Out.FreshName("dk"))
+	env := &Env{e: e, vars: map[string]Val{keyName: {T: qk, S: d.ksort, Ty: c.Args[0].Type()}, "keys": {T: setTerm, S: srt}}, st: pre, old: pre, fr: fr, bound: true}
+	if c.IsInvoke() {
+		env.vars[names[0]] = recv
+	}
+	for _, rc := range ctr.Requires {
+		t := e.evalBool(rc, env)
+		f := "(forall ((" + qk + " " + string(d.ksort) + ")) (=> " + Sel(setTerm, qk) + " " + t + "))"
+		e.Out.AddObl(&Obligation{Name: fmt.Sprintf("%s/deferred:%s/pre:%s", FuncKey(fr.fn), trimPkg(ctr.Key), rc.Label), Func: FuncKey(fr.fn), Kind: "pre", Label: rc.Label, Text: "for every deferred key: " + rc.Text, Src: rc.Src, Formula: Imp(g, f)})
+		e.assume(g, f)
+	}
+	post := st.clone()
+	for _, m := range ctr.Modifies {
+		e.havocLoc(m, env, pre, post)
+	}
+	env2 := &Env{e: e, vars: env.vars, st: post, old: pre, fr: fr}
+	if len(ctr.SetEnsures) == 0 {
+		e.unsupported("contract %s has 'flag deferset' but no setensures clause", ctr.Key)
+	}
+	for _, sc := range ctr.SetEnsures {
+		e.assume(g, e.evalBool(sc, env2))
+	}
+	merged := e.mergeStates([]string{g, Not(g)}, []*State{post, pre})
+	if g == "true" {
+		merged = post
+	}
+	for k := range st.H {
+		delete(st.H, k)
+	}
+	for k, v := range merged.H {
+		st.H[k] = v
+	}
 }
